@@ -24,6 +24,10 @@ func (p *Path) nowMono() *Term {
 		p.nowCount++
 		return BVI(64, int64(p.nowCount)*1000)
 	}
+	if p.clockFixed != nil {
+		p.nowCount++
+		return p.clockFixed
+	}
 	v := p.internalVar("now", SBV(64))
 	lo := p.lastNow
 	if lo == nil {
